@@ -1,6 +1,7 @@
 //! Verification machinery (engines + one module per property).
 pub mod common;
 mod c02;
+mod c03;
 mod c05;
 mod c08;
 mod c09;
